@@ -142,7 +142,21 @@ def h_enc(H):
         S.explore(body)
 
 
-@harness(PROPERTY, "split_restriction", functions=["spikeglx:_split_geometry_into_shanks", "neuropixel:split_trace_header", "spikeglx:geometry_from_meta"],
+def replay_split(vals, oid):
+    """native: the canonical 4-shank header split shank by shank against the parent's rows of that shank"""
+    bad = []
+    for ver in (2, 2.4):
+        h = neuropixel.trace_header(version=ver, nshank=4)
+        for sh in range(4):
+            hs = neuropixel.split_trace_header(h, shank=sh)
+            sel = h["shank"] == sh
+            for k in h:
+                if k not in hs or not np.array_equal(np.asarray(hs[k]), np.asarray(h[k])[sel]):
+                    bad.append({"version": ver, "shank": sh, "key": k, "first_rows_returned": np.asarray(hs.get(k, []))[:4].tolist(), "parent_rows": np.asarray(h[k])[sel][:4].tolist()})
+    return {"failed": bool(bad), "cases": bad[:4]}
+
+
+@harness(PROPERTY, "split_restriction", functions=["spikeglx:_split_geometry_into_shanks", "neuropixel:split_trace_header", "spikeglx:geometry_from_meta"], replay=replay_split,
          clause="a split shank's geometry is the restriction of its parent's")
 def h_split(H):
     S = H.session("split")
@@ -235,8 +249,32 @@ def native_geometry(rng, n):
     return bad
 
 
+def _adc_history(v):
+    """tables handed out are edited in place by the caller, then asked for again (directly and through trace_header)"""
+    bad = []
+    ws, wa = adc_spec(1 if v in (1, "NPultra") else 2, 384)
+    for how in ("adc_shifts", "trace_header"):
+        if how == "adc_shifts":
+            s_, a_ = neuropixel.adc_shifts(version=v)
+        else:
+            h = neuropixel.trace_header(version=v)
+            s_, a_ = h["sample_shift"], h["adc"]
+        try:
+            s_ /= 30000.0
+            a_ += 24
+        except (ValueError, TypeError):
+            continue           # read-only tables cannot be edited at all
+        s2, a2 = neuropixel.adc_shifts(version=v)
+        h2 = neuropixel.trace_header(version=v)
+        if not (np.array_equal(s2, ws) and np.array_equal(a2, wa) and np.array_equal(h2["sample_shift"], ws) and np.array_equal(h2["adc"], wa)):
+            bad.append({"version": str(v), "tables_edited_in_place_were_those_of": how, "next_call_returns_the_edited_values": True})
+    return bad
+
+
 def replay_adc(vals, oid):
     bad = []
+    for v in (1, 2, 2.1, 2.4, "NPultra"):
+        bad += _adc_history(v)
     for v in (1, 2, 2.1, 2.4, "NPultra"):
         s_, a_ = neuropixel.adc_shifts(version=v)
         ws, wa = adc_spec(1 if v in (1, "NPultra") else 2, 384)
@@ -269,6 +307,8 @@ def h_adc(H):
                     ok, why = False, f"nc={nc}: table differs from the per-channel formula (first channel with another delay: {bad_ch})"
                     break
             it.ctx.oblige(f"adc.table.{v}", z3.BoolVal(ok), "post", "sample_shift[ch] == ((ch // 2) % A) / C and adc[ch] == 2*(ch // 2A) + ch % 2 for every ch < nc, every nc in 1..384" + (": " + why if why else ""))
+            it.ctx.oblige(f"adc.table_is_the_callers_own.{v}", z3.BoolVal(not _adc_history(v)), "post",
+                          "consistent description whatever was asked before: what a caller does to the tables it was handed (in-place unit conversion, renumbering) is not seen by the next header")
     S.explore(body)
 
 
